@@ -94,10 +94,18 @@ type val struct {
 	t      *typ
 }
 
+// typedNilErr: an error VALUE that is nil — an `error` interface holding a nil *typedNilErr.  The
+// executor must treat it exactly like a nil error (executor.go isNil, future.Result.IsOk) on both
+// delivery routes: returned next to the value by a resolver, or sent next to it through a promise.
+type typedNilErr struct{}
+
+func (*typedNilErr) Error() string { return "typed nil" }
+
 type fval struct {
 	ft   *ftype
 	tag  int  // -1: synchronous
 	pre  bool // asynchronous, and the resolver sends the result before it returns the channel
+	tnil bool // the (successful) outcome is accompanied by a typed-nil error
 	err  bool
 	v    *val
 	path []interface{}
@@ -308,6 +316,8 @@ type registry struct {
 func (p *promise) send() {
 	if p.fv.err {
 		p.ch <- graphql.ResolveResult{Error: errors.New("promise failed")}
+	} else if p.fv.tnil {
+		p.ch <- graphql.ResolveResult{Value: p.fv.v.goValue(), Error: (*typedNilErr)(nil)}
 	} else {
 		p.ch <- graphql.ResolveResult{Value: p.fv.v.goValue()}
 	}
@@ -367,7 +377,7 @@ func (b *builder) objType(name string, t *typ) *graphql.ObjectType {
 					if !subscribing {
 						panic("IsSubscribe outside Subscribe")
 					}
-					return ctx.Object, nil // the event source: here the one event itself
+					return ctx.Object, (*typedNilErr)(nil) // the event source (the one event itself), with a typed-nil error
 				}
 				if subscribing {
 					panic("resolver called without IsSubscribe during Subscribe")
@@ -386,6 +396,9 @@ func (b *builder) objType(name string, t *typ) *graphql.ObjectType {
 				}
 				if fv.err {
 					return nil, errors.New("resolver failed")
+				}
+				if fv.tnil {
+					return fv.v.goValue(), (*typedNilErr)(nil)
 				}
 				return fv.v.goValue(), nil
 			},
@@ -612,6 +625,15 @@ func run(root *val, mutation bool, ranks []int, r *rng.R) observation {
 		q.feats["subscription-event"] = true
 	}
 	typeFeats(&rootT, q.feats)
+	root.walk(func(fv *fval) {
+		if fv.tnil {
+			if fv.tag >= 0 {
+				q.feats["typed-nil-error-through-promise"] = true
+			} else {
+				q.feats["typed-nil-error-sync"] = true
+			}
+		}
+	})
 	schema, err := graphql.NewSchema(def)
 	if err != nil {
 		panic(fmt.Sprintf("schema: %v (%s)", err, text))
@@ -824,8 +846,10 @@ func decorateTypes(t *typ, r *rng.R, isRoot bool) {
 // setPrefill marks some asynchronous field invocations as fulfilled at creation (none when r == nil).
 func setPrefill(root *val, r *rng.R) {
 	some := r != nil && r.Chance(1, 3)
+	tn := r != nil && r.Chance(1, 2)
 	root.walk(func(fv *fval) {
 		fv.pre = some && fv.tag >= 0 && r.Chance(1, 3)
+		fv.tnil = tn && !fv.err && r.Chance(1, 3)
 	})
 }
 
